@@ -13,12 +13,13 @@ import (
 // Case is one lambda list with one argument vector (part A) or one built-in
 // function (part B).
 type Case struct {
-	Part  string   `json:"part"`
-	Block string   `json:"block,omitempty"`
-	LL    *ref.LL  `json:"ll,omitempty"`
-	Args  []string `json:"args,omitempty"`
-	Split int      `json:"split,omitempty"` // leading arguments passed outside the spread list (apply, multiple-value-call)
-	Fn    string   `json:"fn,omitempty"`
+	Part    string   `json:"part"`
+	Block   string   `json:"block,omitempty"`
+	LL      *ref.LL  `json:"ll,omitempty"`
+	Args    []string `json:"args,omitempty"`
+	Ambient bool     `json:"ambient,omitempty"` // the caller has variables named like the non-required parameters
+	Split   int      `json:"split,omitempty"`   // leading arguments passed outside the spread list (apply, multiple-value-call)
+	Fn      string   `json:"fn,omitempty"`
 }
 
 // part B cases are spread over the run (one every stride cases) so that they
@@ -62,8 +63,9 @@ func init() {
 		Rule: "part A: (lambda list, argument vector) - the 768 lambda lists of the shape grid (0-3 required x 0-2 optional x defaults x rest x 0-3 keys x defaults x aux) " +
 			"x EVERY argument vector of length 0..3 (quick) / 0..5 (thorough) over {integer, each declared keyword, a foreign keyword}, then a seed-independent probe block of 44 boundary " +
 			"vectors per lambda list (too few/exact/too many positionals x key order, duplicates, keyword as value, unknown key, odd tail, non-keyword key, keyword naming a non-key parameter), " +
-			"the same probes on 128 variant lambda lists (init forms that must be evaluated, &allow-other-keys, &key without names, aux initialised from a variable), then seeded vectors of length 0..8; " +
-			"every case is called through defun, funcall, apply, a lambda in operator position and multiple-value-call. " +
+			"the same probes on 128 variant lambda lists (init forms that must be evaluated, &allow-other-keys, &key without names, aux initialised from a variable), " +
+			"a block of calls made where the caller has variables named like the parameters, then seeded vectors of length 0..8; " +
+			"every case is called through defun (evaluated and compiled), funcall of the symbol, funcall/apply of a lambda, a lambda in operator position and multiple-value-call. " +
 			"part B: every function of every package (enumerated at run time) x every argument count 0..documented maximum+2 x six argument flavours. " +
 			"distinct = distinct case JSON; non-trivial = judged against the reference binder (A) or a callable, not denylisted function with a readable documented lambda list (B). " +
 			"Known deviations (too few arguments, duplicate keys, rest+key) are kept to a minority of the seeded block; the exhaustive block contains them by construction.",
